@@ -75,6 +75,9 @@ def chan_replay(ctx):
     ]
 
 
+MUX_CUTS = '{"cuteof", "cutrst"}'
+MUX0 = {"Streams": S([1, 2]), "MaxSent": 2, "MaxWrite": 2, "MaxMsg": 1, "Glitches": "{}", "Cuts": "{}", "CutPos": "{}"}
+
 LAYERS = {
     # name: (MC module, cfg template, quick consts, thorough consts, deadlock checking)
     "psk": ("C02_MCPsk", "C02_MCPsk.cfg",
@@ -84,12 +87,16 @@ LAYERS = {
                 {"PeekSize": 3, "MaxSent": 6, "MaxWrite": 4, "Bufs": S([0, 1, 2, 3, 4]), "Shorts": S([0, 1, 2]), "Glitches": RGLITCHES},
                 {"PeekSize": 3, "MaxSent": 8, "MaxWrite": 5, "Bufs": S([0, 1, 2, 3, 4, 5]), "Shorts": S([0, 1, 2]), "Glitches": RGLITCHES}),
     "mux": ("C02_MCMux", "C02_MCMux.cfg",
-            {"Streams": S([1, 2]), "MaxSent": 2, "MaxWrite": 2, "MaxMsg": 1, "MaxTotal": 2, "MaxClose": 2, "Bufs": S([1, 2]), "Glitches": "{}"},
-            {"Streams": S([1, 2]), "MaxSent": 2, "MaxWrite": 2, "MaxMsg": 1, "MaxTotal": 3, "MaxClose": 2, "Bufs": S([1, 2]), "Glitches": "{}"}),
+            dict(MUX0, MaxTotal=2, MaxClose=2, Bufs=S([1, 2])),
+            dict(MUX0, MaxTotal=3, MaxClose=2, Bufs=S([1, 2]))),
     # the same with one glitch of the underlying connection per behaviour
     "muxg": ("C02_MCMux", "C02_MCMux.cfg",
-             {"Streams": S([1, 2]), "MaxSent": 2, "MaxWrite": 2, "MaxMsg": 1, "MaxTotal": 2, "MaxClose": 1, "Bufs": S([2]), "Glitches": CH_GLITCHES},
-             {"Streams": S([1, 2]), "MaxSent": 2, "MaxWrite": 2, "MaxMsg": 1, "MaxTotal": 2, "MaxClose": 1, "Bufs": S([1, 2]), "Glitches": CH_GLITCHES}),
+             dict(MUX0, MaxTotal=2, MaxClose=1, Bufs=S([2]), Glitches=CH_GLITCHES),
+             dict(MUX0, MaxTotal=2, MaxClose=1, Bufs=S([1, 2]), Glitches=CH_GLITCHES)),
+    # ... and with the connection CUT (plain EOF / error) after 0, 1, 2 more frames, streams open, FINs missing
+    "muxc": ("C02_MCMux", "C02_MCMux.cfg",
+             dict(MUX0, MaxTotal=2, MaxClose=1, Bufs=S([2]), Cuts=MUX_CUTS, CutPos=S([0, 1])),
+             dict(MUX0, MaxTotal=2, MaxClose=2, Bufs=S([2]), Cuts=MUX_CUTS, CutPos=S([0, 1, 2]))),
     "start": ("C02_MCStart", "C02_MCStart.cfg",
               {"HLen": 2, "MaxFrames": 2, "MaxUnits": 2, "Bufs": S([1, 2])},
               {"HLen": 2, "MaxFrames": 3, "MaxUnits": 2, "Bufs": S([1, 2])}),
@@ -99,12 +106,13 @@ LAYERS = {
 }
 # second mux replay instance (thorough): every channel may be half-closed
 MUX_B = {"Streams": S([1, 2]), "MaxSent": 2, "MaxWrite": 2, "MaxMsg": 1, "MaxTotal": 2, "MaxClose": 4, "Bufs": S([1, 2]),
-         "Glitches": "{}"}
+         "Glitches": "{}", "Cuts": "{}", "CutPos": "{}"}
 
 
 def mux_exhaustive(ctx):
     return {"Streams": S([1, 2]), "MaxSent": 2, "MaxWrite": 2, "MaxMsg": 1, "MaxTotal": 4 if ctx.tier == "thorough" else 3,
-            "MaxClose": 4, "Bufs": S([1, 2]), "Glitches": CH_GLITCHES if ctx.tier == "thorough" else "{}"}
+            "MaxClose": 4, "Bufs": S([1, 2]), "Glitches": CH_GLITCHES if ctx.tier == "thorough" else "{}",
+            "Cuts": "{}", "CutPos": "{}"}   # (cuts are checked exhaustively on the printed instance mux_c)
 
 
 # ------------------------------------------------------------------------------------------------
@@ -273,6 +281,12 @@ def _edge_stats(g):
             inc("start-boundary")
         if n == "finish" and op.get("carry", 0) > 0:
             inc("start-carry")
+        if n == "cut":
+            inc("cut:" + op["kind"])
+            if op.get("open", 0) >= 2:
+                inc("cut-two-streams-open")
+        if n == "read" and op.get("term") == "err":
+            inc("term:err")
         if n == "glitch":
             inc("glitch:" + op["kind"])
         if n == "read" and op.get("glitch", "none") != "none":
@@ -307,6 +321,7 @@ LAYER_NEED = {
                 "read-glitch:temperr", "glitch:eofdata"],
     "mux": ["op:open", "op:write", "op:closewrite", "op:read", "read-after-own-closewrite", "eof"],
     "muxg": ["op:open", "op:write", "op:read", "glitch:dataerr", "glitch:temperr", "glitch:shortwrite"],
+    "muxc": ["op:open", "op:write", "op:read", "cut:cuteof", "cut:cutrst", "cut-two-streams-open", "term:err", "eof"],
     "start": ["op:write", "op:finish", "op:read", "start-coalesced", "start-boundary", "start-carry"],
     "lazy": ["lazy-flush-by:cwrite", "lazy-flush-by:creadbegin", "lazy-flush-by:cclosewrite", "op:swrite", "op:sread",
              "read-after-own-closewrite", "eof"],
@@ -428,12 +443,12 @@ def run(ctx):
         fg = []
         jobs = [("C02_MC", "C02_MC.cfg", name, consts, False) for name, consts in chan_replay(ctx)]
         for lname, (module, template, quick, thor) in LAYERS.items():
-            gname = "mux_g" if lname == "muxg" else lname + "_a"
+            gname = {"muxg": "mux_g", "muxc": "mux_c"}.get(lname, lname + "_a")
             jobs.append((module, template, gname, thor if thorough else quick, False))
         if thorough:
             jobs.append(("C02_MCMux", "C02_MCMux.cfg", "mux_b", MUX_B, False))
         # biggest first so that the two lanes finish together
-        order = {"chan_a": 0, "chan_b": 1, "mux_a": 2, "mux_b": 3, "chan_g": 4, "mux_g": 5}
+        order = {"chan_a": 0, "chan_b": 1, "mux_a": 2, "mux_b": 3, "mux_c": 4, "chan_g": 5, "mux_g": 6}
         jobs.sort(key=lambda j: order.get(j[2], 9))
         for module, template, name, consts, deadlock in jobs:
             fg.append(pg.submit(_graph, (ctx, module, template, name, consts, beh_dir, 40, deadlock, None)))
@@ -460,7 +475,7 @@ def run(ctx):
             for k, v in stats.items():
                 chan_stats[k] = chan_stats.get(k, 0) + v
         else:
-            _need(stats, LAYER_NEED["muxg" if name == "mux_g" else name.split("_")[0]], name)
+            _need(stats, LAYER_NEED[{"mux_g": "muxg", "mux_c": "muxc"}.get(name, name.split("_")[0])], name)
     _need(chan_stats, CHAN_NEED, "chan_*")
     for name, distinct, generated, wall in xres:
         states += distinct
